@@ -42,6 +42,16 @@ def histogram(line):
     except ValueError:
         pass
     try:
+        # which branch of rand::seq::index::sample the construction takes (SamplerStream.index_sample)
+        if f.get("mode") == "zoops" and f.get("api") != "new":
+            a = min(int(f.get("seeds", "0")), n) if f.get("seeds", "-") != "-" else 0
+            keys.append("index-sample:" + ("none" if a == 0 else "inplace" if (a > 11 and n < (10.0 + 1.6 * a) * a)
+                                           else "floyd" if a < 50 else "floyd+shuffle"))
+        else:
+            keys.append("index-sample:oops")
+    except ValueError:
+        pass
+    try:
         moved, recruited, calls = [int(x) for x in f.get("nt", "").split(":")]
         keys += ["calls<=%d" % (100 * ((calls + 99) // 100)),
                  "moved:" + ("0" if moved == 0 else "1-9" if moved < 10 else "10-99" if moved < 100 else "100+"),
